@@ -15,6 +15,7 @@ import (
 	"reflect"
 	"sort"
 	"strconv"
+	"runtime"
 	"strings"
 	"sync"
 	"sync/atomic"
@@ -1096,6 +1097,23 @@ func collectProbes(h *harness, w *workload, rr *runResult) {
 // ------------------------------------------------------------------------------------
 // free-running pass (race detector): same workloads and oracles, no scheduler
 
+const freeRunLimit = 60 * time.Second
+
+// trimStacks keeps the goroutines whose stack mentions the package under test.
+func trimStacks(all, pkg string) string {
+	var keep []string
+	for _, g := range strings.Split(all, "\n\n") {
+		if strings.Contains(g, "texel/"+pkg+".") && !strings.Contains(g, "runFree1(") {
+			keep = append(keep, g)
+		}
+	}
+	out := strings.Join(keep, "\n\n")
+	if len(out) > 6000 {
+		out = out[:6000] + "\n..."
+	}
+	return out
+}
+
 func runFree(w *workload) *simh.Violation {
 	for _, tw := range tablesOf(w) {
 		if v := runFree1(tw); v != nil {
@@ -1107,7 +1125,20 @@ func runFree(w *workload) *simh.Violation {
 
 func runFree1(w *workload) *simh.Violation {
 	h, src, targets := build(w)
-	processing.ProcessFeatures(src, targets, h.tableSnap)
+	// a free-running call that does not come back within a minute of real time (it takes
+	// milliseconds) hangs: report it with the stacks of all goroutines as evidence
+	done := make(chan struct{})
+	go func() {
+		defer close(done)
+		processing.ProcessFeatures(src, targets, h.tableSnap)
+	}()
+	select {
+	case <-done:
+	case <-time.After(freeRunLimit):
+		buf := make([]byte, 1<<20)
+		buf = buf[:runtime.Stack(buf, true)]
+		return &simh.Violation{Class: "lifecycle/hang-free-running", Message: fmt.Sprintf("free-running: ProcessFeatures has not returned after %v of real time; goroutines:\n%s", freeRunLimit, trimStacks(string(buf), "processing"))}
+	}
 	// the caller's view right after return, without any synchronisation of its own:
 	// exactly what main.go does when it re-assigns target.Table
 	for _, t := range sortedTargets(h) {
@@ -1149,7 +1180,11 @@ func TestVerifPipesim(t *testing.T) {
 		// all simulated runs of this process in ONE bubble (see simh.InBubble)
 		simh.InBubble(t, func() { explore(t, job, out) })
 	case "candidates":
-		simh.InBubble(t, func() { candidates(t, job, out) })
+		if strings.HasSuffix(job.Engine, "-free") {
+			candidates(t, job, out) // free-running replays: real clock, no bubble
+		} else {
+			simh.InBubble(t, func() { candidates(t, job, out) })
+		}
 	case "race":
 		racePass(t, job, out)
 	default:
@@ -1357,7 +1392,7 @@ func racePass(t *testing.T, job *simh.Job, out *simh.Out) {
 		if len(w.Features) > 0 {
 			sum.NonTrivial++
 		}
-		if v != nil && job.Property == "C10" && v.Class == "lifecycle/early-return" {
+		if v != nil && job.Property == "C10" && (v.Class == "lifecycle/early-return" || v.Class == "lifecycle/hang-free-running") {
 			sum.Oracles.Inc("C11-matter-observed-not-reported-under-C10:" + v.Class)
 			v = nil
 		}
